@@ -541,6 +541,11 @@ func (c *FunctionComposer) Compose(ctx context.Context, xr *composite.Unstructur
 	xr.SetName(n)
 	xr.SetUID(u)
 
+	// Functions report conditions through the conditions of their response. The
+	// status conditions of the XR are Crossplane's: a function must not be able
+	// to set them by returning them as part of the desired XR's status.
+	kunstructured.RemoveNestedField(xr.Object, "status", "conditions")
+
 	// NOTE(phisco): Here we are fine using a hardcoded field owner as there is
 	// no risk of conflict between different XRs.
 	if err := c.client.Status().Patch(ctx, xr, client.Apply, client.ForceOwnership, client.FieldOwner(FieldOwnerXR)); err != nil {
